@@ -297,6 +297,13 @@ def inheritance_trees(names, rng, enums8, s_static=None):
     out.append(packet(p, [scalar("h", 8), payload()]))
     out.append(packet(names.new("Iz"), [scalar("x", 8)], parent_id=p))
     out.append(packet(names.new("Iz"), [scalar("x", 16), scalar("y", 8)], parent_id=p))
+    # 3b. told apart by size, one of them OPEN-ENDED (header + payload of its own): its arm
+    #     matches every length the fixed-size sibling does not take
+    p = names.new("Ip")
+    out.append(packet(p, [scalar("kind", 8), payload()]))
+    out.append(packet(names.new("Iz"), [scalar("x", 8)], parent_id=p, constraints=[constraint("kind", 1)]))
+    out.append(packet(names.new("Iz"), [scalar("seq", 8), scalar("flags", 8), payload()], parent_id=p, constraints=[constraint("kind", 1)]))
+    out.append(packet(names.new("Iz"), [scalar("v", 16)], parent_id=p, constraints=[constraint("kind", 2)]))
     # 4. depth 3 with constraints added at several levels, body
     p = names.new("Ip")
     out.append(packet(p, [scalar("a", 4), scalar("b", 4), body()]))
@@ -382,6 +389,11 @@ def inheritance_trees(names, rng, enums8, s_static=None):
     out.append(packet(mid2, [scalar("m", 8), payload()], parent_id=p, constraints=[constraint("c", 9)]))
     out.append(packet(names.new("Ig"), [scalar("x", 8)], parent_id=mid2, constraints=[constraint("b", 4)]))
     out.append(packet(names.new("Ig"), [scalar("y", 16)], parent_id=mid2, constraints=[constraint("a", 5)]))
+    # 5h. a child WITHOUT payload of its own under a parent whose payload has a size modifier
+    fr = names.new("Ip")
+    out.append(packet(fr, [scalar("kind", 8), size_f("_payload_", 8), payload("+2")]))
+    out.append(packet(names.new("Ic"), [scalar("b", 16), array("c", width=8)], parent_id=fr, constraints=[constraint("kind", 1)]))
+    out.append(packet(names.new("Ic"), [scalar("d", 8)], parent_id=fr, constraints=[constraint("kind", 2)]))
     # 6. parent without payload, child without fields
     p = names.new("Ip")
     out.append(packet(p, [scalar("a", 8), scalar("b", 8)]))
